@@ -98,6 +98,10 @@ def traced_source():
     s += func("f_pos_star", "a, /, b=2, *rest, **extra")
     s += func("f_kwonly", "*, a, z=None")
     s += func("f_wrapped", "a, b=1", deco="S_deco")
+    # a function that carries ANOTHER function's metadata (`@functools.wraps(old)` on a same-named replacement, an override
+    # documented by `wraps(Base.render)`): its own code runs; __wrapped__ points elsewhere
+    s += func("f_wraps_other", "a, b=None")
+    s += "f_wraps_other.__wrapped__ = f_mod\n\n\n"
     s += func("trace_types", "a, b=None")      # an ordinary user function that happens to be called like this
     s += func("g_mod", "a, b=0", kind="gen")
     s += func("c_mod", "a", kind="coro")
@@ -151,6 +155,7 @@ TARGETS = {
         dict(name="f_kwonly", maker="lambda: M.f_kwonly", sig="M.f_kwonly", selfargs="[]", kwonly="a"),
         dict(name="f_wrapped", maker="lambda: M.f_wrapped", sig="M.f_wrapped.__wrapped__", selfargs="[]"),
         dict(name="trace_types", maker="lambda: M.trace_types", sig="M.trace_types", selfargs="[]"),
+        dict(name="f_wraps_other", maker="lambda: M.f_wraps_other", sig="M.f_wraps_other", selfargs="[]"),
         dict(name="LateKls.late_static", maker="lambda: (setattr(M, 'LateKls', M._LateHolder.cls), M.LateKls.late_static)[1]",
              sig="M._LateHolder.cls.__dict__['late_static'].__func__", selfargs="[]"),
         dict(name="Kls.m_inst", maker="lambda: OBJ.m_inst", sig="M.Kls.m_inst", selfargs="[OBJ]"),
